@@ -199,7 +199,12 @@ def consensus (repaired : Bool) (par : Params) (ref : Array Char) (vars : List V
   | .ok cs => .ok (if repaired then cs ++ passThrough vars votes else cs)
 
 /-- the phase `PhasedVcfWriter.write` puts on the call at `pos`: `some (PS, a0, a1)` = `a0|a1:PS`,
-`none` = unphased (existing phase removed) -/
+`none` = not phased by the writer.  Since F25 (c654edd) haplotagphase constructs the writer with
+`remove_existing_phasing=False`: a call the writer does not phase keeps whatever phase it has in the input (second
+records at a position, multi-allelic records under `--no-mav`, phased calls without a PS value and without votes).
+For the calls of the variant table this makes no difference to the model: with `repaired = true` every call that is
+phased in the input with a block id and two alleles is in `cs` (`consensusAt` / `passThrough`), so `none` is only
+returned for calls that are unphased in the input. -/
 def phaseOut (cs : List Cons) (pos : Nat) : Option (Int × Nat × Nat) :=
   match cs.find? (·.pos == pos) with
   | some ⟨_, comp, some (a0, a1)⟩ => if a0 ≠ a1 then some (comp + 1, a0, a1) else none
